@@ -49,6 +49,9 @@ CLAIMED['C07'] = ("reference-model monitor: exact rational snapping oracle for d
 CLAIMED['C08'] = ("process-level runtime monitoring: every decoder entry point is driven with enumerated corruptions inside sacrificial worker processes (RLIMIT_AS ceiling, journal of the input before each call); monitors: recovered panics, worker death attributed by the driver, cumulative heap-allocation delta per call, Validate() of what is returned, re-encoding; thorough tier adds an AddressSanitizer build",
   "Fault enumeration by runtime monitoring: for a corpus of valid encodings of every type in WKB/TWKB/WKT/GeoJSON the check enumerates every truncation, every byte value at header/type/count/flag positions (field maps from independent codecs), boundary values elsewhere, every 4-byte count and varint overwritten with the extreme values, splices, PRNG byte strings up to 64 KiB, token mutations and deep nesting (about 0.86 M inputs / 7 M decoder calls in quick). Holds for the inputs enumerated.",
   "allocation bound 64 MiB + 8192*len fixed in advance; time is not judged; the address-space limit is 8 GiB (not combinable with the ASan variant, where the allocation monitor is the backstop)", "DESIGN.md §3 C08")
+CLAIMED['C18'] = ("reference-model monitor: WKB byte equality (mod -0) from the independent writer for the option-free relation, harness canonical form for IgnoreOrder, metamorphic monitors (symmetry, reflexivity, transitivity on sampled triples, tolerance perturbations) over one-difference families",
+  "Exploration by runtime monitoring: for thousands of base trees per run (arbitrary finite trees with magnitudes from subnormal to 1e300 and valid lattice geometries with Z/M) a family of one-difference variants and order-insignificant shuffles is generated; ExactEquals with every option subset and both argument orders is compared with the two reference relations.",
+  "closed curves with ordinates of extreme magnitude are judged on the option-free relation only (whether they are simple, hence rings, is outside C03's domain)", "DESIGN.md §3 C18")
 REASONS = {}
 hooks_commits = subprocess.run(['git','-C','/repo','log','--format=%h %s'],capture_output=True,text=True).stdout.splitlines()
 hook_commits = [l.split()[0] for l in hooks_commits if l.split(' ',1)[1].startswith('verif hook')]
